@@ -43,6 +43,7 @@ macro_rules! blend_mode {
             let src: PreAlpha<LinLuma<T>> = LinLuma::new(cs).premultiply(a_s);
             let dst: PreAlpha<LinLuma<T>> = LinLuma::new(cb).premultiply(a_b);
             let r = src.$method(dst);
+            T::output("r.color", &r.color.luma); T::output("r.alpha", &r.alpha);
             let spec = cs * a_s * (T::k(1.0) - a_b) + cb * a_b * (T::k(1.0) - a_s) + a_s * a_b * $spec::<T>(cs, cb);
             let tol = T::tol(1e-9, 1e-5);
             T::ensure("w3c.color", abs_le(r.color.luma, spec, tol));
@@ -169,6 +170,7 @@ program!(c08_premultiply_inverse, "C08", "quick", sv,
     let c: Alpha<LinSrgb<T>, T> = Alpha { color: LinSrgb::new(r, g, b), alpha: a };
     let p: PreAlpha<LinSrgb<T>> = c.premultiply();
     let back: Alpha<LinSrgb<T>, T> = p.unpremultiply();
+    T::output("back.r", &back.color.red); T::output("back.g", &back.color.green); T::output("back.b", &back.color.blue);
     let tol = T::tol(1e-12, 1e-5);
     let nz = T::p_not(T::p_eq(&a, &T::k(0.0)));
     let z = T::p_eq(&a, &T::k(0.0));
